@@ -1,6 +1,6 @@
 (* C31  File selection and path matching follow the documented rules.
    Statements only; every proof is `exact <lemma>`. *)
-From CV Require Import Base.Bytes Base.Glob Path.Defs Path.MatchProofs Path.SpecProofs Path.ListProofs Path.IterProofs Path.CanonProofs Path.Termination.
+From CV Require Import Base.Bytes Base.Glob Path.Defs Path.MatchProofs Path.SpecProofs Path.ListProofs Path.IterProofs Path.CanonProofs Path.Termination Path.WinProofs.
 From Coq Require Import Permutation Sorted.
 Local Open Scope N_scope.
 
@@ -67,6 +67,21 @@ Theorem C31_pathmatch_total pattern path base isdir :
             (b = true <-> pathmatch_spec pattern path base isdir).
 Proof. exact (pathmatch_total_ok pattern path base isdir). Qed.
 Print Assumptions C31_pathmatch_total.
+
+(* Syntax::windows (second instance): the same loop on what the windows
+   iterators read (backslash = separator, case folded, drive / UNC roots):
+   PathMatch::match always answers, by the documented pattern rules. *)
+Theorem C31_pathmatch_windows_total pattern path base isdir :
+  fast_ok pattern base = true ->
+  exists b, pathmatch_w pattern path base isdir = Some b /\
+            (b = true <-> pathmatch_w_spec pattern path base isdir).
+Proof. exact (pathmatch_w_total pattern path base isdir). Qed.
+Print Assumptions C31_pathmatch_windows_total.
+
+Example C31_windows_example :
+  iter_read_w [67;58;92;83;114;99;92;46;92;65;46;67] [] = [99;58;47;115;114;99;47;97;46;99] /\
+  pathmatch_w [115;114;99;92;42;46;99] [67;58;92;83;114;99;92;65;46;67] [] false = Some true.
+Proof. exact iter_w_example. Qed.
 
 (* The iterator reads a string without empty, "." or ".." components and
    without trailing separator (canonical_b, a syntactic check) back unchanged. *)
